@@ -1072,7 +1072,7 @@ int cg_configure(int option, void *value)
     }
     /* add to link search path */
     else if (option == CG_CONFIG_ADD_PATH) {
-        return cg_set_path((const char *)value);
+        return cg_add_path((const char *)value);
     }
     /* default file type */
     else if (option == CG_CONFIG_FILE_TYPE) {
